@@ -27,11 +27,9 @@ RECURSIVE Run(_, _, _, _, _, _, _)
 Run(as, a, o, av, c, bad, at) ==
     IF a > Len(as) THEN [r |-> "some", ai |-> 1, ao |-> 0, c |-> c, ux |-> FALSE, avs |-> av]
     ELSE LET t == as[a] IN
-         IF bad # "ok" /\ a = at THEN
-             \* the corrupted field becomes visible once `need` bytes of this atom are there
-             IF av + o >= t.need
-                 THEN [r |-> IF bad = "tag" THEN "err" ELSE "lost", ai |-> a, ao |-> o, c |-> c, ux |-> FALSE, avs |-> av]
-                 ELSE [r |-> "none", ai |-> a, ao |-> o, c |-> c, ux |-> FALSE, avs |-> av]
+         IF bad # "ok" /\ a = at /\ av + o >= t.need THEN
+             \* the corrupted field is visible once `need` bytes of its atom are there
+             [r |-> IF bad = "tag" THEN "err" ELSE "lost", ai |-> a, ao |-> o, c |-> c, ux |-> FALSE, avs |-> av]
          ELSE IF t.s THEN
              \* a body streamed into an incremental inner decoder (consume_bounded)
              IF av >= t.n - o
